@@ -326,6 +326,12 @@ def r20_5(run):
     stores = g.nodes_where(lambda n: n.kind == 'stmt' and isinstance(n.ast, ast.Assign) and any(isinstance(t, ast.Subscript) and dotted(t.value) == 'self.addr' for t in n.ast.targets))
     run.floor('R20.5', 'calls of Addr.update in AddrMap.update', len(upd), 2)
     run.floor('R20.5', 'stores into the map', len(stores), 3)
+    # every ADDRMAP line reaches its mapping's update(): nothing (a CACHED flag, the kind of the current mapping ...) lets
+    # AddrMap.update return before, because the property makes the *latest* event decide address and expiry
+    skip = g.reachable([g.entry], avoid=lambda n: n in upd, follow_exc=False)
+    run.ob('R20.5', up, up.node, 'every address-map event is applied to its mapping', bool(upd) and not any(e in skip for e in g.normal_exits()), slot='event-always-applied',
+           message='AddrMap.update can return without calling the mapping\'s update(): some later events are ignored, so the mapping keeps an address / expiry '
+                   'that is no longer Tor\'s')
     for un in upd:
         after = g.reachable([s_ for lab, s_ in un.succ if lab != 'exc'], follow_exc=False)
         late = [s_ for s_ in stores if s_ in after]
@@ -345,6 +351,7 @@ RULES = [
 from ..selftest import M  # noqa: E402
 F = 'txtorcon/addrmap.py'
 MUTANTS = [
+    M('cached-no-ignored', F, "            a = self.addr[params[0]]\n", "            a = self.addr[params[0]]\n            if a.expires is None and len(params) > 3:\n                return\n", ['R20.5']),
     M('lookup-by-address', F, "            a = self.addr[params[0]]\n", "            a = self.addr[params[1]]\n", ['R20.2']),
     M('stale-filter-inverted', F, "if v is a and k != params[0]]:", "if v is not a and k != params[0]]:", ['R20.2']),
     M('rekey-after-update', F, "            self.addr[params[1]] = a\n            a.update(*params)\n\n        else:", "            a.update(*params)\n            self.addr[params[1]] = a\n\n        else:", ['R20.5']),
